@@ -70,53 +70,86 @@ theorem intLit_scaleExp (e : Expr) (k : Int) : intLit? (scaleExp e k) = none := 
 
 /-! ### `expContent` -/
 
-theorem intLit_expContent (e : Expr) (h : intLit? e = none) : intLit? (expContent e).2 = none := by
-  unfold expContent
+theorem intLit_expNorm (e : Expr) (h : intLit? e = none) : intLit? (expNorm e).2.2 = none := by
+  unfold expNorm
   simp only
+  have h1 : ∀ k : Int, intLit? (if k = 0 then e else .add (.int (-k)) [(e, .int 1)]) = none := by
+    intro k
+    split
+    · exact h
+    · rfl
+  generalize (if (if isRatLit e then (0 : Int) else constHeur e).natAbs > 16 then (0 : Int)
+      else (if isRatLit e then (0 : Int) else constHeur e)) = k
+  have h2 := h1 k
+  generalize (if k = 0 then e else Expr.add (.int (-k)) [(e, .int 1)]) = e1 at h2 ⊢
+  generalize (if isRatLit e then (1 : Int) else contentHeur e1) = c0
+  generalize (if c0 = 0 || c0.natAbs > 16 then (1 : Int) else c0) = c
   split
-  · exact h
+  · exact h2
   · rfl
 
-theorem evalS_expContent {e : Expr} {ve : K} (h : evalS M e = some ve) :
-    ∃ v0, evalS M (expContent e).2 = some v0 ∧ ve = ((expContent e).1 : K) * v0 := by
-  unfold expContent
+theorem cast_sign_div {c : Int} (hc : c ≠ 0) :
+    ((c : ℤ) : K) * (((c.sign : ℤ) : K) / ((c.natAbs : ℕ) : K)) = 1 := by
+  have hn : c.natAbs ≠ 0 := by omega
+  have hnK : ((c.natAbs : ℕ) : K) ≠ 0 := by exact_mod_cast hn
+  have hs : ((c : ℤ) : K) = ((c.sign : ℤ) : K) * ((c.natAbs : ℕ) : K) := by
+    have h1 : c = c.sign * ((c.natAbs : ℕ) : ℤ) := (Int.sign_mul_natAbs c).symm
+    have h2 := congrArg (fun z : ℤ => (z : K)) h1
+    simp only [Int.cast_mul, Int.cast_natCast] at h2
+    exact h2
+  have hss : ((c.sign : ℤ) : K) * ((c.sign : ℤ) : K) = 1 := by
+    rcases Int.lt_trichotomy c 0 with hlt | heq | hgt
+    · simp [Int.sign_eq_neg_one_of_neg hlt]
+    · exact absurd heq hc
+    · simp [Int.sign_eq_one_of_pos hgt]
+  rw [hs]
+  field_simp
+  linear_combination hss
+
+theorem evalS_expNorm {e : Expr} {ve : K} (h : evalS M e = some ve) :
+    ∃ v0, evalS M (expNorm e).2.2 = some v0 ∧
+      ve = ((expNorm e).1 : K) + ((expNorm e).2.1 : K) * v0 := by
+  unfold expNorm
   simp only
+  -- the shifted exponent `e1 = e - k`
+  generalize hk : (if (if isRatLit e then (0 : Int) else constHeur e).natAbs > 16 then (0 : Int)
+      else (if isRatLit e then (0 : Int) else constHeur e)) = k
+  have h1 : ∃ v1, evalS M (if k = 0 then e else .add (.int (-k)) [(e, .int 1)]) = some v1 ∧
+      ve = (k : K) + v1 := by
+    split
+    · rename_i hk0; exact ⟨ve, h, by simp [hk0]⟩
+    · exact ⟨(-k : K) + ve, by simp [evalS, evalSTerms, h, add2, mul2], by ring⟩
+  obtain ⟨v1, hv1, hve⟩ := h1
+  generalize (if k = 0 then e else Expr.add (.int (-k)) [(e, .int 1)]) = e1 at hv1 ⊢
+  generalize (if isRatLit e then (1 : Int) else contentHeur e1) = c0
+  generalize hc : (if c0 = 0 || c0.natAbs > 16 then (1 : Int) else c0) = c
+  have hc0 : c ≠ 0 := by
+    rw [← hc]
+    split
+    · decide
+    · rename_i hne
+      simp only [Bool.or_eq_true, decide_eq_true_eq, not_or] at hne
+      exact hne.1
   split
-  · exact ⟨ve, h, by simp⟩
-  · rename_i hc
-    simp only [Bool.or_eq_true, decide_eq_true_eq, not_or] at hc
-    have hc0 : contentHeur e ≠ 0 := hc.1
-    have hn : (contentHeur e).natAbs ≠ 0 := by omega
-    have hnK : (((contentHeur e).natAbs : ℕ) : K) ≠ 0 := by exact_mod_cast hn
-    refine ⟨((contentHeur e).sign : K) / (((contentHeur e).natAbs : ℕ) : K) * ve, ?_, ?_⟩
-    · simp [evalS, evalSFacs, intLit?, h, hn, powVal_one, mul2]
-    · have hs : ((contentHeur e : ℤ) : K) = ((contentHeur e).sign : K) * (((contentHeur e).natAbs : ℕ) : K) := by
-        have h1 : (contentHeur e) = (contentHeur e).sign * (((contentHeur e).natAbs : ℕ) : ℤ) :=
-          (Int.sign_mul_natAbs (contentHeur e)).symm
-        have h2 := congrArg (fun z : ℤ => (z : K)) h1
-        simp only [Int.cast_mul, Int.cast_natCast] at h2
-        exact h2
-      have hss : ((contentHeur e).sign : K) * ((contentHeur e).sign : K) = 1 := by
-        rcases Int.lt_trichotomy (contentHeur e) 0 with hlt | heq | hgt
-        · simp [Int.sign_eq_neg_one_of_neg hlt]
-        · exact absurd heq hc0
-        · simp [Int.sign_eq_one_of_pos hgt]
-      simp only
-      rw [hs]
-      field_simp
-      linear_combination (-ve) * hss
+  · rename_i hc1
+    exact ⟨v1, hv1, by rw [hve, hc1]; simp⟩
+  · have hn : c.natAbs ≠ 0 := by omega
+    refine ⟨((c.sign : ℤ) : K) / ((c.natAbs : ℕ) : K) * v1, ?_, ?_⟩
+    · simp [evalS, evalSFacs, intLit?, hv1, hn, powVal_one, mul2]
+    · rw [hve, ← mul_assoc, cast_sign_div hc0, one_mul]
 
 /-- the atom `b ** e0` of the power `b ** e` is defined with it -/
 theorem powAtom_defined {b e : Expr} {v : K} (he : intLit? e = none) (h : facVal M b e = some v) :
     ∃ vb ve v0, evalS M b = some vb ∧ vb ≠ 0 ∧ evalS M e = some ve ∧
-      evalS M (expContent e).2 = some v0 ∧ ve = ((expContent e).1 : K) * v0 ∧ v = M.pw vb ve ∧
-      evalS M (.pow b (expContent e).2) = some (M.pw vb v0) := by
+      evalS M (expNorm e).2.2 = some v0 ∧
+      ve = ((expNorm e).1 : K) + ((expNorm e).2.1 : K) * v0 ∧ v = M.pw vb ve ∧
+      evalS M (.pow b (expNorm e).2.2) = some (M.pw vb v0) := by
   simp only [facVal, he] at h
   obtain ⟨vb, ve, hvb, hve, hne, rfl⟩ := pwVal_some h
-  obtain ⟨v0, hv0, hc⟩ := evalS_expContent hve
+  obtain ⟨v0, hv0, hc⟩ := evalS_expNorm hve
   refine ⟨vb, ve, v0, hvb, hne, hve, hv0, hc, rfl, ?_⟩
   rw [evalS_pow_eq]
-  simp only [facVal, intLit_expContent e he, hvb, hv0, pwVal_eq hne]
+  simp only [facVal, intLit_expNorm e he, hvb, hv0, pwVal_eq hne]
 
 /-! ### `foldPow` -/
 
